@@ -249,7 +249,7 @@ func checkC13(rc *Run) error {
 		shard = -shard
 	}
 	for i := range vecs {
-		if i%nsh == shard {
+		if inShard(i, nsh, shard) {
 			jobs <- i
 		}
 	}
